@@ -9,16 +9,21 @@ runtime behaviour; the model predicts where they *cannot* happen):
 
 * `C16_sigcheck_sound` — `check_if_valid_call` accepts only argument lists whose every argument has a kind its
   guarding parameter allows (fixed, default and variadic arities; all argument lists);
-* `C16_signatures_cover_unwraps` — by `decide` over the **regenerated** table of all natives: outside the committed
-  list `knownBadRows`, every site where a body indexes / unwraps `args[i]` is justified by the declared parameter
-  (or, for the receiver of a method, by class dispatch — envelope E16 `receiverOk`);
-  `C16_knownBadRows_fail` shows every listed row really fails (the list cannot hide a healthy row);
-  `C16_unwraps_safe` lifts the table check to *all* accepted argument lists;
-* `C16_result_unwraps_listed`, `C16_field_unwraps_listed` — the places where the result of a user callback / an
-  assignable instance field is unwrapped unchecked are exactly the committed ones (D23 …);
-* `C16_frame_limit_partial`, `C16_stack_overflow_at_limit` and the witness `C16_witness_frame_limit_bypass` (the
-  guard is `==` and `call_native` pushes its stub frame unguarded: entering a stack-using native at exactly
-  `MAX_FRAME_SIZE` frames switches the guard off for good — found by this model, reproduced on the binary);
+* `C16_signatures_cover_unwraps` — by `decide` over the **regenerated** table of all natives: for *every* native, every
+  site where a body indexes / unwraps `args[i]` is justified by the declared parameter (or, for the receiver of a
+  method, by class dispatch — envelope E16 `receiverOk`); there is no list of exceptions any more (D22, D24 repaired);
+  `C16_unwraps_safe` / `C16_natives_safe` lift the table check to *all* accepted argument lists;
+* `C16_result_unwraps_none`, `C16_field_unwraps_listed` — no result of a user callback is unwrapped unchecked (D23
+  repaired); the unchecked unwraps of an assignable instance field are exactly the committed ones (DC16.5, open);
+* `C16_frame_limit`, `C16_frame_limit_always`, `C16_frame_limit_from_any_state`, `C16_stack_overflow_at_limit` — every
+  push of a call frame (Laythe frame or native stub frame) sits behind `frames().len() >= MAX_FRAME_SIZE`
+  (`C16_frame_guard_text`): along **every** sequence of calls, native entries/exits and returns the frame count never
+  exceeds `MAX_FRAME_SIZE` — no envelope (DC16.1 repaired: the old `==` guard with an unguarded stub push could be
+  stepped over);
+* `C16_fiber_init_text`, `C16_fiber_init_any_size` — the initial stack of a fiber is copied from a slice of exactly the
+  requested length, whatever that length is (D10 repaired);
+* `C16_chan_capacity_text`, `C16_chan_capacity_bounded` — `chan(n)` allocates a buffer only for 1 ≤ n ≤ `MAX_CHANNEL_CAPACITY`
+  (DC16.3 repaired);
 * `C16_noncallable` — `resolve_call` dispatches on five object kinds and reports everything else as not callable;
 * generated-table lemmas tying the model to the text of signature.rs / native.rs / ops.rs.
 
@@ -334,22 +339,11 @@ theorem C16_isValid_eq_gen (p : PKind) (v : VKind) : genIsValid p v = p.isValid 
 
 /-! ## the table of natives -/
 
-/-- Natives (Rust struct names) whose body is **not** covered by its declared signature on the pinned
-    code.  `Print`: D22 (`args[0]` with `Variadic(0)`); the others: D24 (an unconstrained parameter is cast
-    to an iterator / class without a test).  Each is a known finding with a witness program. -/
-def knownBadRows : List String :=
-  ["Print", "IterZip", "IterChain", "ListCollect", "ObjectIsA", "TupleCollect"]
-
-/-- **C16_signatures_cover_unwraps** — every native outside `knownBadRows` is classified, has a well-formed
-    signature, and each site of its body is justified (bounds by the arity or a length guard, kind by the
-    declared parameter / receiver convention / a dominating `is_*` test).  A new mismatching native, a loosened
-    parameter kind or an unclassifiable body breaks this lemma. -/
-theorem C16_signatures_cover_unwraps :
-    ∀ r ∈ natives, r.struct ∉ knownBadRows → r.ok = true := by decide +kernel
-
-/-- every listed row really fails the check -/
-theorem C16_knownBadRows_fail :
-    ∀ n ∈ knownBadRows, ∃ r ∈ natives, r.struct = n ∧ r.ok = false := by decide +kernel
+/-- **C16_signatures_cover_unwraps** — every native is classified, has a well-formed signature, and each site of its
+    body is justified (bounds by the arity or a length guard, kind by the declared parameter / receiver convention / a
+    dominating `is_*` test).  No exceptions: a new mismatching native, a loosened parameter kind or an unclassifiable
+    body breaks this lemma. -/
+theorem C16_signatures_cover_unwraps : ∀ r ∈ natives, r.ok = true := by decide +kernel
 
 /-- struct names identify rows -/
 theorem C16_native_structs_distinct : (natives.map (·.struct)).Nodup := by decide +kernel
@@ -360,61 +354,39 @@ theorem C16_all_classified : ∀ r ∈ natives, r.unclassified = "" := by decide
 /-- every registered signature satisfies the `assert_eq!` of `to_sig` / `to_method_sig` -/
 theorem C16_signatures_wellFormed : ∀ r ∈ natives, r.sig.wellFormed = true := by decide +kernel
 
-/-- **C16_natives_safe** — table lemma and lifting combined: for every native outside `knownBadRows`, every
-    argument list the signature check accepts (receiver inside E16), every unguarded site is in bounds and
-    unwraps a value of the assumed kind. -/
-theorem C16_natives_safe (r : NativeRow) (hr : r ∈ natives) (hb : r.struct ∉ knownBadRows)
+/-- **C16_natives_safe** — table lemma and lifting combined: for every native, every argument list the signature
+    check accepts (receiver inside E16), every unguarded site is in bounds and unwraps a value of the assumed kind. -/
+theorem C16_natives_safe (r : NativeRow) (hr : r ∈ natives)
     (args : List VKind) (hacc : accepts r.sig args = true)
     (hrecv : r.isMethod = true → ∀ a, args[0]? = some a → receiverOk r.owner a = true)
     (s : Site) (hs : s ∈ r.sites) (hlen : s.minLen ≤ args.length) :
     (s.rest = false → ∃ a, args[s.idx]? = some a ∧ (s.guarded = false → s.kind.holds a = true)) ∧
     (s.rest = true → s.idx ≤ args.length ∧
         ∀ (i : Nat) (a : VKind), s.idx ≤ i → args[i]? = some a → s.guarded = false → s.kind.holds a = true) :=
-  C16_unwraps_safe r (C16_signatures_cover_unwraps r hr hb) args hacc hrecv s hs hlen
+  C16_unwraps_safe r (C16_signatures_cover_unwraps r hr) args hacc hrecv s hs hlen
 
-/-- **C16_result_unwraps_listed** — the unchecked unwraps of a user callback's result are exactly these (D23) -/
-theorem C16_result_unwraps_listed :
-    resultUnwraps = [
-      ("laythe_lib/src/global/misc.rs", "Print::call", .ok .string, "direct x2"),
-      ("laythe_vm/src/vm/ops.rs", "Vm::op_interpolate", .ok .string, "stack slice x2")] := by decide
+/-- **C16_result_unwraps_none** — nowhere in laythe_lib, nor in `op_interpolate`, is the result of a user callback
+    (`hooks.call`, `hooks.call_method`, a `str()` result on the VM stack) unwrapped without a test -/
+theorem C16_result_unwraps_none : resultUnwraps = [] := by decide
 
-/-- **C16_field_unwraps_listed** — the unchecked unwraps of an assignable instance field are exactly these -/
+/-- **C16_field_unwraps_listed** — the unchecked unwraps of an assignable instance field, in laythe_lib and in the VM
+    (`Fiber::print_error` no longer unwraps the message of an uncaught error: DC16.4 repaired), are exactly these (DC16.5, open) -/
 theorem C16_field_unwraps_listed :
     fieldUnwraps = [
       ("laythe_lib/src/regexp/class.rs", "macro get_regex!", "instance[0]", .ok .string)] := by decide
 
 /-- **C16_stackless_callbacks_listed** — natives with `NativeEnvironment::StackLess` (no stub frame) whose body can run
     user code are exactly these.  An error raised in such a callback is unwound with no frame between the callback and
-    the native's caller: when that caller has an active `try`, its handler runs inside the nested `execute` of the hook
-    (known finding D12: wrong value caught / missed catch / heap corruption).  The `for … in` instruction over a lazy
-    iterator (`op_iter_next`) has the same shape. -/
+    the native's caller; `Fiber::stack_unwind` accepts only handlers *above* the frame count recorded when the native
+    called back, so a `try` of the caller is reached after the native has returned the error (the streams call every
+    native from an activation with an active `try`).  The `for … in` instruction over a lazy iterator
+    (`op_iter_next`) has the same shape. -/
 theorem C16_stackless_callbacks_listed :
     (natives.filter fun r => !r.stack && r.callsBack).map (·.struct) =
       ["IterNext", "IterFirst", "IterLast", "IterLen", "IterToList", "ListCollect", "MethodName", "TupleCollect"] := by
   decide +kernel
 
-/-! ### witnesses for the listed rows (model level; the programs are under `known_findings/`) -/
-
-/-- D22: `print()` — the signature accepts the empty argument list, the body reads `args[0]` -/
-theorem C16_witness_print_no_args :
-    ∃ r ∈ natives, r.struct = "Print" ∧ accepts r.sig [] = true ∧
-      ∃ s ∈ r.sites, s.rest = false ∧ s.idx = 0 ∧ ([] : List VKind)[s.idx]? = none := by decide +kernel
-
-/-- D24: `List.collect(1)` — accepted, and the body casts a number to an iterator -/
-theorem C16_witness_collect_non_iterator :
-    ∃ r ∈ natives, r.struct = "ListCollect" ∧ accepts r.sig [.number] = true ∧
-      ∃ s ∈ r.sites, s.idx = 0 ∧ s.guarded = false ∧ s.kind.holds .number = false := by decide +kernel
-
-/-- D24: `x.isA?(1)` -/
-theorem C16_witness_isA_non_class :
-    ∃ r ∈ natives, r.struct = "ObjectIsA" ∧ accepts r.sig [.obj .instance_, .number] = true ∧
-      ∃ s ∈ r.sites, s.idx = 1 ∧ s.guarded = false ∧ s.kind.holds .number = false := by decide +kernel
-
-/-- D24: `it.zip([1])` / `it.chain("s")` — variadic `Object` tail cast to iterators -/
-theorem C16_witness_zip_non_iterator :
-    ∃ r ∈ natives, r.struct = "IterZip" ∧ accepts r.sig [.obj .enumerator, .obj .list] = true ∧
-      ∃ s ∈ r.sites, s.rest = true ∧ s.idx ≤ 1 ∧ s.guarded = false ∧ s.kind.holds (.obj .list) = false := by
-  decide +kernel
+/-! ### witness of the open finding outside the envelope E16 (model level; the program is under `known_findings/`) -/
 
 /-- D11 (`class A : List {}; A().push(1)`): an instance reaches `List.push` through inheritance, outside the
     envelope E16, and the body casts the receiver to a list. -/
@@ -425,89 +397,122 @@ theorem C16_witness_builtin_subclass :
 
 /-! ## call depth -/
 
-/-- the text of the guards: `==` against `MAX_FRAME_SIZE` in `call_closure` and `call`, none in `call_native` -/
+/-- the text of the guards: `>=` against `MAX_FRAME_SIZE` in front of the one `push_frame` of `call_native` (arm
+    `NativeEnvironment::Normal`), `call_closure` and `call`; no other function of the VM pushes a frame
+    (`vm/basic.rs:push_frame` is the wrapper the three call) -/
 theorem C16_frame_guard_text :
-    Limits.frameGuards = [("call_closure", "==", "MAX_FRAME_SIZE"), ("call", "==", "MAX_FRAME_SIZE")] ∧
-    Limits.nativeStubPush = (1, false) := by decide
+    Limits.frameGuards = [("call_native", ">=", "MAX_FRAME_SIZE"), ("call_closure", ">=", "MAX_FRAME_SIZE"),
+      ("call", ">=", "MAX_FRAME_SIZE")] ∧
+    Limits.nativeStubPush = (1, true) ∧
+    Limits.pushFrameSites = ["vm/basic.rs:push_frame", "vm/ops.rs:call_native", "vm/ops.rs:call_closure", "vm/ops.rs:call"] := by
+  decide
 
-/-- the envelope under which the limit holds: no stack-using native is entered at exactly the limit -/
-def noNativeAtLimit : FrameState → List FrameOp → Bool
-  | _, [] => true
-  | s, op :: ops =>
-    !(op == .nativeEnter && guardTrips s.frames) &&
-      match frameStep s op with
-      | some (s', _) => noNativeAtLimit s' ops
-      | none => true
+/-- the model's guard is the comparison of the text -/
+theorem guardTrips_iff (n : Nat) : guardTrips n = true ↔ n ≥ Limits.maxFrameSize := by
+  simp [guardTrips]
 
-/-- **C16_stack_overflow_at_limit** — at the limit a Laythe call raises the (catchable) error and pushes nothing -/
-theorem C16_stack_overflow_at_limit (s : FrameState) (h : s.frames = Limits.maxFrameSize) :
-    frameStep s .callLaythe = some (s, .stackOverflow) := by
-  simp [frameStep, guardTrips, h]
+/-- **C16_stack_overflow_at_limit** — at (or above) the limit a Laythe call *and* the entry of a stack-using native raise
+    the (catchable) error and push nothing -/
+theorem C16_stack_overflow_at_limit (s : FrameState) (h : s.frames ≥ Limits.maxFrameSize) :
+    frameStep s .callLaythe = some (s, .stackOverflow) ∧ frameStep s .nativeEnter = some (s, .stackOverflow) := by
+  have hg : guardTrips s.frames = true := (guardTrips_iff _).mpr h
+  simp [frameStep, hg]
 
-/-- **C16_frame_limit_partial** — for every sequence of calls, returns and native entries/exits inside the
-    envelope, the frame count never exceeds `MAX_FRAME_SIZE`.  (`_partial`: the full statement — without the
-    envelope — is false on the pinned code, see the witness below.) -/
-theorem C16_frame_limit_partial (ops : List FrameOp) :
-    ∀ (s s' : FrameState), s.frames ≤ Limits.maxFrameSize → noNativeAtLimit s ops = true →
-      frameRun s ops = some s' → s'.frames ≤ Limits.maxFrameSize := by
-  induction ops with
-  | nil => intro s s' h0 _ hr; simp [frameRun] at hr; subst hr; exact h0
-  | cons op ops ih =>
-    intro s s' h0 henv hr
-    simp only [noNativeAtLimit, Bool.and_eq_true] at henv
-    obtain ⟨hne, hrest⟩ := henv
-    simp only [frameRun] at hr
-    cases op with
-    | callLaythe =>
-      simp only [frameStep] at hr hrest
-      by_cases hg : guardTrips s.frames = true
-      · simp only [hg, if_true] at hr hrest
-        exact ih s s' h0 hrest hr
-      · simp only [hg] at hr hrest
-        refine ih _ s' ?_ hrest hr
-        simp [guardTrips] at hg
-        simp; omega
-    | nativeEnter =>
-      simp only [frameStep] at hr hrest
-      refine ih _ s' ?_ hrest hr
-      simp [guardTrips] at hne
+/-- below the limit both are admitted and push exactly one frame -/
+theorem C16_call_below_limit (s : FrameState) (h : s.frames < Limits.maxFrameSize) :
+    frameStep s .callLaythe = some ({ frames := s.frames + 1 }, .ok) ∧
+    frameStep s .nativeEnter = some ({ frames := s.frames + 1 }, .ok) := by
+  have hg : guardTrips s.frames = false := by
+    cases hgt : guardTrips s.frames with
+    | false => rfl
+    | true => have := (guardTrips_iff _).mp hgt; omega
+  simp [frameStep, hg]
+
+/-- one step never takes the frame count above `max (frames before) MAX_FRAME_SIZE` -/
+theorem frameStep_bound (s s' : FrameState) (op : FrameOp) (r : FrameResult) (b : Nat)
+    (hb : Limits.maxFrameSize ≤ b) (h0 : s.frames ≤ b) (h : frameStep s op = some (s', r)) : s'.frames ≤ b := by
+  cases op with
+  | callLaythe =>
+    simp only [frameStep] at h
+    by_cases hg : guardTrips s.frames = true
+    · simp [hg] at h; obtain ⟨h1, _⟩ := h; subst h1; exact h0
+    · simp [hg] at h; obtain ⟨h1, _⟩ := h; subst h1
+      have : ¬ s.frames ≥ Limits.maxFrameSize := fun hh => hg ((guardTrips_iff _).mpr hh)
       simp; omega
-    | nativeLeave =>
-      simp only [frameStep] at hr hrest
-      by_cases hz : s.frames = 0
-      · simp [hz] at hr
-      · simp only [hz, if_false] at hr hrest
-        refine ih _ s' ?_ hrest hr
-        simp; omega
-    | ret =>
-      simp only [frameStep] at hr hrest
-      by_cases hz : s.frames = 0
-      · simp [hz] at hr
-      · simp only [hz, if_false] at hr hrest
-        refine ih _ s' ?_ hrest hr
-        simp; omega
+  | nativeEnter =>
+    simp only [frameStep] at h
+    by_cases hg : guardTrips s.frames = true
+    · simp [hg] at h; obtain ⟨h1, _⟩ := h; subst h1; exact h0
+    · simp [hg] at h; obtain ⟨h1, _⟩ := h; subst h1
+      have : ¬ s.frames ≥ Limits.maxFrameSize := fun hh => hg ((guardTrips_iff _).mpr hh)
+      simp; omega
+  | nativeLeave =>
+    simp only [frameStep] at h
+    by_cases hz : s.frames = 0
+    · simp [hz] at h
+    · simp [hz] at h; obtain ⟨h1, _⟩ := h; subst h1; simp; omega
+  | ret =>
+    simp only [frameStep] at h
+    by_cases hz : s.frames = 0
+    · simp [hz] at h
+    · simp [hz] at h; obtain ⟨h1, _⟩ := h; subst h1; simp; omega
 
-theorem frameRun_calls_above_limit (n : Nat) :
-    ∀ k, Limits.maxFrameSize < k →
-      frameRun { frames := k } (List.replicate n .callLaythe) = some { frames := k + n } := by
-  induction n with
-  | zero => intro k _; simp [frameRun]
-  | succ n ih =>
-    intro k hk
-    have hg : guardTrips k = false := by
-      simp [guardTrips]; omega
-    simp [List.replicate_succ, frameRun, frameStep, hg, ih (k + 1) (by omega)]
-    omega
+/-- **C16_frame_limit_from_any_state** — for every sequence of calls, returns and native entries/exits from *any* state,
+    every state on the way has at most `max (frames at the start) MAX_FRAME_SIZE` frames: no sequence steps over the guard. -/
+theorem C16_frame_limit_from_any_state (ops : List FrameOp) :
+    ∀ (s : FrameState) (b : Nat), Limits.maxFrameSize ≤ b → s.frames ≤ b →
+      ∀ t ∈ frameTrace s ops, t.frames ≤ b := by
+  induction ops with
+  | nil => intro s b _ h0 t ht; simp [frameTrace] at ht; subst ht; exact h0
+  | cons op ops ih =>
+    intro s b hb h0 t ht
+    simp only [frameTrace, List.mem_cons] at ht
+    rcases ht with ht | ht
+    · subst ht; exact h0
+    · cases hstep : frameStep s op with
+      | none => simp [hstep] at ht
+      | some p =>
+        obtain ⟨s', r⟩ := p
+        simp only [hstep] at ht
+        exact ih s' b hb (frameStep_bound s s' op r b hb h0 hstep) t ht
 
-/-- **C16_witness_frame_limit_bypass** (genuine defect, found with this model and reproduced on the binary:
-    `known_findings/D25-frame-limit-bypass`): enter a stack-using native (`iter.each`, `list.sort`, `print`, …) with
-    exactly `MAX_FRAME_SIZE` frames on the fiber; the unguarded stub frame makes the count `MAX_FRAME_SIZE + 1`,
-    the `==` guard never fires again, and *any* number `n` of further Laythe calls is admitted. -/
-theorem C16_witness_frame_limit_bypass (n : Nat) :
+/-- **C16_frame_limit_always** — the property at full strength: a fiber that starts with at most `MAX_FRAME_SIZE` frames
+    (a new fiber has one) never has more than `MAX_FRAME_SIZE` frames, at any point of any sequence of Laythe calls,
+    entries and exits of stack-using natives and returns.  No envelope. -/
+theorem C16_frame_limit_always (ops : List FrameOp) (s : FrameState) (h0 : s.frames ≤ Limits.maxFrameSize) :
+    ∀ t ∈ frameTrace s ops, t.frames ≤ Limits.maxFrameSize :=
+  C16_frame_limit_from_any_state ops s Limits.maxFrameSize (Nat.le_refl _) h0
+
+/-- the final state of a completed run is on the trace -/
+theorem frameRun_mem_trace (ops : List FrameOp) : ∀ (s s' : FrameState), frameRun s ops = some s' → s' ∈ frameTrace s ops := by
+  induction ops with
+  | nil => intro s s' h; simp [frameRun] at h; subst h; simp [frameTrace]
+  | cons op ops ih =>
+    intro s s' h
+    simp only [frameRun] at h
+    cases hstep : frameStep s op with
+    | none => simp [hstep] at h
+    | some p =>
+      obtain ⟨s1, r⟩ := p
+      simp only [hstep] at h
+      simp only [frameTrace, hstep, List.mem_cons]
+      exact Or.inr (ih s1 s' h)
+
+/-- **C16_frame_limit** — the end-state form (the former `C16_frame_limit_partial` without its envelope `noNativeAtLimit`) -/
+theorem C16_frame_limit (ops : List FrameOp) (s s' : FrameState) (h0 : s.frames ≤ Limits.maxFrameSize)
+    (hr : frameRun s ops = some s') : s'.frames ≤ Limits.maxFrameSize :=
+  C16_frame_limit_always ops s h0 s' (frameRun_mem_trace ops s s' hr)
+
+/-- the sequence that stepped over the old `==` guard (a stack-using native entered at exactly the limit, then Laythe
+    calls: `known_findings` DC16.1, now `corpus/C16`) stays at the limit: every further call raises `Stack overflow.` -/
+theorem C16_native_at_limit_then_calls (n : Nat) :
     frameRun { frames := Limits.maxFrameSize } (.nativeEnter :: List.replicate n .callLaythe)
-      = some { frames := Limits.maxFrameSize + 1 + n } := by
-  simp only [frameRun, frameStep]
-  exact frameRun_calls_above_limit n _ (by omega)
+      = some { frames := Limits.maxFrameSize } := by
+  have hg : guardTrips Limits.maxFrameSize = true := (guardTrips_iff _).mpr (Nat.le_refl _)
+  simp only [frameRun, frameStep, hg, if_true]
+  induction n with
+  | zero => simp [frameRun]
+  | succ n ih => simp only [List.replicate_succ, frameRun, frameStep, hg, if_true]; exact ih
 
 /-! ## non-callables -/
 
@@ -524,14 +529,51 @@ theorem C16_noncallable (v : VKind) :
 theorem C16_resolveCall_eq_gen (v : VKind) : genResolveCall v = (resolveCall v).handler :=
   (by decide : ∀ v ∈ VKind.all, genResolveCall v = (resolveCall v).handler) v (VKind_all_complete v)
 
-/-! ## fiber stack sizing (D10) -/
+/-! ## fiber stack sizing -/
 
-/-- `Fiber::new` / `split` build the initial stack from `&UNDEFINED_ARRAY[0..stack_count]` -/
-def fiberInitSliceOk (stackCount : Nat) : Bool := stackCount ≤ Limits.undefinedArrayLen
+/-- `Fiber::new` / `Fiber::split` copy the initial `stack_count` slots from `&vec![VALUE_UNDEFINED; stack_count]`: the
+    slice is built for the requested count (the fixed 255-element `UNDEFINED_ARRAY` of D10 is gone) -/
+theorem C16_fiber_init_text :
+    Limits.fiberInitStack = [("new", "&vec![VALUE_UNDEFINED; stack_count]", "stack_count"),
+      ("split", "&vec![VALUE_UNDEFINED; stack_count]", "stack_count")] := by decide
 
-/-- D10: a script whose `max_slots + 1` exceeds 255 (a 300-element list literal at module level needs 302)
-    slices out of range → host panic -/
-theorem C16_witness_fiber_stack : fiberInitSliceOk 302 = false := by decide
+/-- model of that construction: the slice handed to `VecBuilder::new(slice, cap)` -/
+def fiberInitSlice (stackCount : Nat) : List VKind := List.replicate stackCount .undefined
+
+/-- `VecBuilder::new(slice, cap)` asserts `slice.len() <= cap` and copies `slice.len()` slots -/
+def fiberInitOk (stackCount : Nat) : Bool := (fiberInitSlice stackCount).length == stackCount
+
+/-- **C16_fiber_init_any_size** — for every requested slot count the slice has exactly that length: no slot count (a
+    300-element literal at module level needs 302) can index out of the source of the initial stack -/
+theorem C16_fiber_init_any_size (stackCount : Nat) : fiberInitOk stackCount = true := by
+  simp [fiberInitOk, fiberInitSlice]
+
+/-! ## channel capacity -/
+
+/-- the tests of `op_buffered_channel` in front of the allocation, and the bound (DC16.3 repaired: there was no upper test) -/
+theorem C16_chan_capacity_text :
+    Limits.chanCapacityTests = [("!capacity.is_num()", "type_"), ("capacity.fract() != 0.0 || capacity < 1.0", "type_"),
+      ("capacity > MAX_CHANNEL_CAPACITY as f64", "value")] ∧
+    Limits.maxChannelCapacity = 2 ^ 24 := by decide
+
+/-- **C16_chan_capacity_bounded** — whatever is handed to `chan(…)`, a buffer is only ever allocated for a capacity between
+    1 and `MAX_CHANNEL_CAPACITY`; everything else is a language error -/
+theorem C16_chan_capacity_bounded (a : ChanArg) (n : Nat) (h : chanCapacity a = .ok n) :
+    1 ≤ n ∧ n ≤ Limits.maxChannelCapacity ∧ a = .positive n := by
+  cases a with
+  | notNumber => simp [chanCapacity] at h
+  | notIntegral => simp [chanCapacity] at h
+  | belowOne => simp [chanCapacity] at h
+  | positive k =>
+    simp only [chanCapacity] at h
+    by_cases h0 : k = 0
+    · simp [h0] at h
+    · by_cases h1 : k > Limits.maxChannelCapacity
+      · simp [h0, h1] at h
+      · simp [h0, h1] at h; subst h; exact ⟨by omega, by omega, rfl⟩
+
+example : (chanCapacity (.positive 65536)).toOption = some 65536 ∧ (chanCapacity (.positive 16777217)).toOption = none ∧
+    (chanCapacity (.positive 16777216)).toOption = some 16777216 ∧ (chanCapacity (.positive 0)).toOption = none := by decide
 
 /-! ## the skeletons the model mirrors (an edit to the Rust text re-opens these) -/
 
@@ -609,9 +651,19 @@ example : accepts (NativeSig.build true (.default 0 2) [.number, .number]) [.obj
 -- variadic: the tail is checked against the last parameter
 example : checkOutcome (NativeSig.build false (.variadic 1) [.number, .number]) [.number, .number, .obj .string]
     = some (.typeWrong 2) := by decide
--- the frame envelope is satisfiable by a run that reaches the limit and raises the error
-example : noNativeAtLimit { frames := 254 } [.callLaythe, .callLaythe, .ret, .nativeEnter, .nativeLeave] = true ∧
-    frameStep { frames := 255 } .callLaythe = some ({ frames := 255 }, .stackOverflow) := by decide
+-- a run that reaches the limit through a native stub frame, is refused a Laythe call and a native entry there, and unwinds
+example : frameTrace { frames := 253 } [.callLaythe, .nativeEnter, .callLaythe, .nativeEnter, .nativeLeave, .ret, .callLaythe]
+    = [⟨253⟩, ⟨254⟩, ⟨255⟩, ⟨255⟩, ⟨255⟩, ⟨254⟩, ⟨253⟩, ⟨254⟩] ∧
+    frameStep { frames := 255 } .nativeEnter = some ({ frames := 255 }, .stackOverflow) := by decide
+-- the repaired rows: the declared kind now rejects what the body cannot unwrap, and accepts what it can
+example : ∃ r ∈ natives, r.struct = "ListCollect" ∧ checkOutcome r.sig [.number] = some (.typeWrong 0) ∧
+    accepts r.sig [.obj .enumerator] = true := by decide +kernel
+example : ∃ r ∈ natives, r.struct = "ObjectIsA" ∧ checkOutcome r.sig [.obj .instance_, .number] = some (.typeWrong 1) ∧
+    accepts r.sig [.number, .obj .class_] = true := by decide +kernel
+example : ∃ r ∈ natives, r.struct = "IterZip" ∧ checkOutcome r.sig [.obj .enumerator, .obj .enumerator, .obj .list] = some (.typeWrong 2) ∧
+    accepts r.sig [.obj .enumerator] = true := by decide +kernel
+-- `print()` is accepted and its only site ranges over the (possibly empty) slice
+example : ∃ r ∈ natives, r.struct = "Print" ∧ accepts r.sig [] = true ∧ r.sites = [⟨0, true, .any, 0, false⟩] := by decide +kernel
 -- a guarded site and a length-guarded site exist in the table
 example : ∃ r ∈ natives, ∃ s ∈ r.sites, s.guarded = true := by decide +kernel
 example : ∃ r ∈ natives, ∃ s ∈ r.sites, s.minLen = 3 ∧ s.idx = 2 := by decide +kernel
